@@ -256,12 +256,25 @@ def get_endpoint_info(route):
     return ret
 
 
+def _exc_repr(exc):
+    # an exception may carry the very object whose repr() just failed
+    try:
+        return repr(exc)
+    except Exception:
+        return '<%s (repr failed)>' % exc.__class__.__name__
+
+
 def get_render_info(route):
     ret = {'type': None}
     render_arg = route.render_arg
     if route.render_factory and not callable(render_arg):
         ret['type'] = route.render_factory.__class__.__name__
-        ret['arg'] = render_arg
+        # whatever the factory takes (a template name, a path object,
+        # ...), shown as text: the JSON view can only hold JSON data
+        if render_arg is None or isinstance(render_arg, (type(u''), int, float, bool)):
+            ret['arg'] = render_arg
+        else:
+            ret['arg'] = repr(render_arg)
     elif render_arg is None:
         ret['arg'] = None
     else:
@@ -473,7 +486,7 @@ class MetaApplication(Application):
             try:
                 peri_ctx = inject(peri.get_context, kwargs)
             except Exception as e:
-                peri_ctx = {'exc_content': repr(e)}
+                peri_ctx = {'exc_content': _exc_repr(e)}
             full_ctx.setdefault(peri.group_key, {}).update(peri_ctx)
         return full_ctx
 
@@ -503,7 +516,7 @@ class MetaApplication(Application):
                 if prev_exc:
                     cur['exc_content'] = prev_exc
             except Exception as e:
-                cur['exc_content'] = repr(e)
+                cur['exc_content'] = _exc_repr(e)
             try:
                 cur_general_items = inject(peri.get_general_items, kwargs)
                 cur_general_items = _process_items(cur_general_items)
